@@ -27,7 +27,7 @@ type (
 func NewCond(l Locker) *Cond { return sync.NewCond(l) }
 
 // Pool is a deterministic stand-in for sync.Pool: one LIFO free list that is
-// emptied whenever a new execution / harness generation starts, so that an
+// emptied whenever the harness builds a fresh instance (NewGeneration), so that an
 // execution never depends on what earlier executions of the same process left in
 // the pool. Handing back the most recently Put item to the next Get (from any
 // goroutine) is one of the behaviours sync.Pool permits - and the adversarial
@@ -45,7 +45,7 @@ var poolGen int64
 func NewGeneration() { atomic.AddInt64(&poolGen, 1) }
 
 func (p *Pool) sync() {
-	g := atomic.LoadInt64(&poolGen)<<32 + vsched.Epoch()
+	g := atomic.LoadInt64(&poolGen)
 	if p.gen != g {
 		p.gen = g
 		p.items = nil
